@@ -468,7 +468,11 @@ Section Force.
      each hill = weight and, per variable of the bias, (variable index, (centre, sigma)) *)
   | BMeta (hs : list (T * list (nat * (T * T))))
   (* ABMD at a fixed reference (colvarbias_abmd::update): force constant, decreasing flag, variable, reference *)
-  | BAbmd (k : T) (dec : bool) (v : nat) (ref : T).
+  | BAbmd (k : T) (dec : bool) (v : nat) (ref : T)
+  (* histogramRestraint (colvarbias_restraint_histogram::update) on scalar variables / the elements of a vector variable:
+     force constant, the normalisation 1/(sqrt(2 pi) sigma n) (computed by the caller), gaussian width, the grid as
+     (bin centre, reference histogram value) pairs, and the element variables *)
+  | BHist (k norm sigma : T) (grid : list (T * T)) (vs : list nat).
 
   Definition rvar (v : cvar) : var := mkVar (cv_width v) (cv_periodic v) (cv_period v) zero.
   Definition cvar0 : cvar := mkCvar one false zero [].
@@ -483,8 +487,17 @@ Section Force.
     if nltb O (ofnat 23) s then zero else nexp O (nneg O hf * s).
   Definition abmd_diff (dec : bool) (x ref : T) : T := (x - ref) * (if dec then mone else one).
 
+  (* one Gaussian of the histogram: norm * exp(-(xg - x)^2 / (2 sigma^2)) *)
+  Definition hist_gauss (norm sigma xg x : T) : T :=
+    norm * nexp O (mone * (xg - x) * (xg - x) / (tw * sigma * sigma)).
+  Definition hist_p (norm sigma : T) (xs : list T) (vs : list nat) (xg : T) : T :=
+    tsum (map (fun v => hist_gauss norm sigma xg (xat xs v)) vs).
+
   Definition bias_energy (b : bias) (ws : list cvar) (xs : list T) : T :=
     match b with
+    | BHist k norm sigma grid vs =>
+      hf * (k * ofnat (length vs)) *
+      tsum (map (fun gr => (hist_p norm sigma xs vs (fst gr) - snd gr) * (hist_p norm sigma xs vs (fst gr) - snd gr)) grid)
     | BMeta hs => tsum (map (fun h => fst h * hill_value ws xs (snd h)) hs)
     | BAbmd k dec v ref =>
       let diff := abmd_diff dec (xat xs v) ref in
@@ -497,6 +510,12 @@ Section Force.
   (* colvar_forces[i] of the bias, summed on variable v (colvarbias::communicate_forces, time_step_factor 1) *)
   Definition bias_force (b : bias) (ws : list cvar) (xs : list T) (v : nat) : T :=
     match b with
+    | BHist k norm sigma grid vs =>
+      tsum (map (fun i => if Nat.eqb i v then
+                  tsum (map (fun gr => (k * ofnat (length vs)) * (hist_p norm sigma xs vs (fst gr) - snd gr)
+                                       * hist_gauss norm sigma (fst gr) (xat xs v)
+                                       * (mone * (fst gr - xat xs v) / (sigma * sigma))) grid)
+                else zero) vs)
     | BMeta hs =>
       tsum (map (fun h =>
                    let val := hill_value ws xs (snd h) in
